@@ -454,6 +454,9 @@ type c07Scenario struct {
 	name  string
 	bases []c07Base
 	ops   []c07Op
+	// guard, if not nil, tells whether an operation is enabled in a state with the given contents
+	guard func(m *c07Model, o c07Op) bool
+	note  string
 }
 
 type c07Succ struct {
@@ -708,6 +711,9 @@ func (s *c07Search) run(maxStates int) {
 			for j, o := range s.sc.ops {
 				su := &succ[i*nops+j]
 				*su = c07Succ{parent: id, op: int16(j)}
+				if s.sc.guard != nil && !s.sc.guard(&st.model, o) {
+					continue
+				}
 				var m2 Map
 				if p := vk.Try(func() { m2 = c07Apply(st.m, o) }); p != "" {
 					c.Violate("panic:"+vk.PanicSite(p), fmt.Sprintf("%v panicked: %s; map before: %s; reached by: %s", o, p, c07Pretty(st.m), s.traceString(id)), s.traceString(id, o))
@@ -960,14 +966,31 @@ func c07Scenarios(c *vk.Ctx) []c07Scenario {
 		ops := fillOps(1, named[1])
 		ops = append(ops, c07KV([]int{c07Fill(0, 0)}, 1, 0)...)
 		scs = append(scs, c07Scenario{name: "F01", bases: bases, ops: ops})
-		// G1: every subset of the 17 level-1 fillers (the node below a one-entry root grows
-		// from empty to an array node and shrinks back to nothing, in every order)
-		var all []int
-		for j := 0; j < 17; j++ {
-			all = append(all, c07Fill(1, j))
-		}
-		scs = append(scs, c07Scenario{name: "G1", bases: empty, ops: append(c07KV(all, 1, 0), c07Op{c07Fill(1, 0), 2})})
 	}
+	// G1: the node below the root on the path of B grows from nothing to an array node and
+	// is drained to nothing again, any number of times: the 17 level-1 fillers are added in
+	// index order and removed in reverse order (stack discipline), interleaved freely with
+	// operations on a0, a1 (collision pair below that node), p1 (another child of it), d0 (a
+	// sibling in the root) and the nil key.
+	lo, hi := c07Fill(1, 0), c07Fill(1, 16)
+	var all []int
+	for id := lo; id <= hi; id++ {
+		all = append(all, id)
+	}
+	g1 := c07KV(all, 1, 0)
+	g1 = append(g1, c07Op{lo, 2})
+	g1 = append(g1, c07KV([]int{c07A0, c07A1, c07P1, c07D0, c07NilID}, 1, 0)...)
+	scs = append(scs, c07Scenario{name: "G1", bases: empty, ops: g1,
+		note: "Assoc(f1.j) enabled only while f1.(j-1) is present, Dissoc(f1.j) only while f1.(j+1) is absent",
+		guard: func(m *c07Model, o c07Op) bool {
+			if o.key < lo || o.key > hi {
+				return true
+			}
+			if o.val == 0 {
+				return o.key == hi || m[o.key+1] == 0
+			}
+			return o.key == lo || m[o.key-1] != 0
+		}})
 	return scs
 }
 
@@ -980,7 +1003,11 @@ func TestVerifC07(t *testing.T) {
 			for _, b := range sc.bases {
 				bn = append(bn, b.name)
 			}
-			desc = append(desc, fmt.Sprintf("%s: bases {%s}, operations {%s}", sc.name, strings.Join(bn, ","), c07OpsString(sc.ops)))
+			d := fmt.Sprintf("%s: bases {%s}, operations {%s}", sc.name, strings.Join(bn, ","), c07OpsString(sc.ops))
+			if sc.note != "" {
+				d += " (" + sc.note + ")"
+			}
+			desc = append(desc, d)
 		}
 		c.Rule("breadth-first search to the fixpoint (no depth bound) over real hashmap values, one search per scenario; a state is the structural dump of the map (count, nil slot, every trie node with bitmap/children/entries in order); every operation of the scenario is applied to every state; scenarios: " + strings.Join(desc, " | ") +
 			"; keys have table-driven hashes: a0,a1,a2 identical hash B; p1/p2/p3/p4/p5/p6 share the low 5/10/15/20/25/30 bits with B; q6 and p6 differ from B only in the top 2 bits; c6 collides fully with p6; d0 differs in the lowest chunk; f<r>.<j> are 17 fillers with distinct chunks at trie level r under B's prefix (L<n> = n fillers loaded, S<n> = 17 loaded then removed down to n); class of a transition = operation kind x node kinds per trie level before>after")
